@@ -101,6 +101,19 @@ struct FGen {
     bool is_bool;
   };
   std::vector<ArrInfo> arrays;
+  // REGION profile: every reference variable has a fixed home region
+  struct RgnInfo {
+    std::string name;
+    Ty ty; // RGN_INT / RGN_BOOL / RGN_REF
+  };
+  struct RefInfo {
+    std::string name;
+    int home; // index in regions
+  };
+  std::vector<RgnInfo> regions;
+  std::vector<RefInfo> refs;
+  int *site_id = nullptr;
+  int local_site = 0;
 
   FGen(Rng &rr, const GenConfig &cc, int *aid, int *hid) : r(rr), c(cc), next_id(0), assert_id(aid), havoc_id(hid) {}
 
@@ -794,9 +807,271 @@ struct FGen {
     body->stmts.push_back(inc);
   }
 
+  // ---- REGION profile ------------------------------------------------------
+  void declare_regions() {
+    int ni = (int)r.range(1, 2);
+    for (int i = 0; i < ni; i++)
+      regions.push_back({"RI" + std::to_string(i), Ty::RGN_INT});
+    if (!bools_rd.empty() && r.chance(1, 3))
+      regions.push_back({"RB0", Ty::RGN_BOOL});
+    bool refrgn = r.chance(1, 2);
+    for (auto &g : regions) {
+      VarDecl d;
+      d.name = g.name;
+      d.ty = g.ty;
+      d.width = g.ty == Ty::RGN_BOOL ? 1 : 32;
+      f.vars.push_back(d);
+    }
+    int np = (int)r.range(2, 4);
+    for (int i = 0; i < np; i++) {
+      RefInfo ri;
+      ri.name = "p" + std::to_string(i);
+      // most references live in RI0 so that aliasing inside one region is frequent
+      ri.home = r.chance(3, 5) ? 0 : (int)r.below(regions.size());
+      refs.push_back(ri);
+    }
+    if (refrgn) {
+      regions.push_back({"RR0", Ty::RGN_REF});
+      VarDecl d;
+      d.name = "RR0";
+      d.ty = Ty::RGN_REF;
+      f.vars.push_back(d);
+      int nq = (int)r.range(1, 2);
+      for (int i = 0; i < nq; i++)
+        refs.push_back({"q" + std::to_string(i), (int)regions.size() - 1});
+    }
+    for (auto &ri : refs) {
+      VarDecl d;
+      d.name = ri.name;
+      d.ty = Ty::REF;
+      f.vars.push_back(d);
+    }
+  }
+  int next_site() { return local_site++ % 60; }
+  const RefInfo &any_ref() { return refs[r.below(refs.size())]; }
+  // a reference whose home region has the given type (nullptr if none)
+  const RefInfo *ref_with(Ty ty, const std::string &not_name = "") {
+    std::vector<const RefInfo *> c2;
+    for (auto &x : refs)
+      if (regions[x.home].ty == ty && x.name != not_name)
+        c2.push_back(&x);
+    return c2.empty() ? nullptr : c2[r.below(c2.size())];
+  }
+  const RefInfo *ref_in(int home, const std::string &not_name = "") {
+    std::vector<const RefInfo *> c2;
+    for (auto &x : refs)
+      if (x.home == home && x.name != not_name)
+        c2.push_back(&x);
+    return c2.empty() ? nullptr : c2[r.below(c2.size())];
+  }
+  Stmt mk_make_ref(const RefInfo &p) {
+    Stmt s = mk(Op::MAKE_REF);
+    static const long sizes[] = {4, 8, 16, 16};
+    s.v = {p.name, regions[p.home].name};
+    s.n = {mpz_class(sizes[r.below(4)]), mpz_class(next_site())};
+    return s;
+  }
+  // store_to_ref(p, home(p), value of the right type); false if no value is available
+  bool mk_store(const RefInfo &p, Stmt &s) {
+    s = mk(Op::STORE_REF);
+    const RgnInfo &g = regions[p.home];
+    s.v = {p.name, g.name};
+    if (g.ty == Ty::RGN_INT) {
+      if (r.coin())
+        s.v.push_back(ird());
+      else
+        s.n = {constant()};
+    } else if (g.ty == Ty::RGN_BOOL) {
+      if (r.coin() && !bools_rd.empty())
+        s.v.push_back(bools_rd[r.below(bools_rd.size())]);
+      else
+        s.n = {mpz_class(r.coin() ? 1 : 0)};
+    } else {
+      // a region of references stores references into RI0-like regions only
+      const RefInfo *t = ref_with(Ty::RGN_INT);
+      if (!t)
+        return false;
+      s.v.push_back(t->name);
+    }
+    return true;
+  }
+  bool mk_load(const RefInfo &p, Stmt &s, std::string &lhs) {
+    s = mk(Op::LOAD_REF);
+    const RgnInfo &g = regions[p.home];
+    if (g.ty == Ty::RGN_INT)
+      lhs = iwr();
+    else if (g.ty == Ty::RGN_BOOL) {
+      if (bools_wr.empty())
+        return false;
+      lhs = bools_wr[r.below(bools_wr.size())];
+    } else {
+      const RefInfo *t = ref_with(Ty::RGN_INT);
+      if (!t)
+        return false;
+      lhs = t->name;
+    }
+    s.v = {lhs, p.name, g.name};
+    return true;
+  }
+  Stmt mk_ref_cst(Op op, const std::string &boolvar = "") {
+    Stmt s = mk(op);
+    unsigned k = (unsigned)r.below(100);
+    const RefInfo &a = any_ref();
+    if (!boolvar.empty())
+      s.v.push_back(boolvar);
+    if (k < 35) {
+      s.k = "null";
+      s.v.push_back(a.name);
+    } else if (k < 70) {
+      s.k = "notnull";
+      s.v.push_back(a.name);
+    } else {
+      const RefInfo *b2 = ref_in(a.home, "");
+      static const char *ks[] = {"eq", "neq", "eq", "neq", "lt", "le", "gt", "ge"};
+      s.k = ks[r.below(8)];
+      s.v.push_back(a.name);
+      s.v.push_back(b2 ? b2->name : a.name);
+      static const long offs[] = {0, 0, 0, 4, 8, -4};
+      s.n = {mpz_class(offs[r.below(6)])};
+    }
+    return s;
+  }
+  void gen_region_stmts(Block &b) {
+    if (refs.empty())
+      return;
+    unsigned k = (unsigned)r.below(100);
+    const RefInfo &p = any_ref();
+    Stmt s;
+    if (k < 14) { // allocation, usually initialised right away
+      b.stmts.push_back(mk_make_ref(p));
+      if (r.chance(3, 4) && mk_store(p, s))
+        b.stmts.push_back(s);
+      return;
+    }
+    if (k < 36) { // store
+      if (r.chance(1, 3)) {
+        Stmt g = mk(Op::ASSUME_REF);
+        g.k = "notnull";
+        g.v = {p.name};
+        b.stmts.push_back(g);
+      }
+      if (mk_store(p, s))
+        b.stmts.push_back(s);
+      return;
+    }
+    if (k < 60) { // load (+ an assertion about the loaded value)
+      std::string lhs;
+      if (!mk_load(p, s, lhs))
+        return;
+      b.stmts.push_back(s);
+      if (regions[p.home].ty == Ty::RGN_INT && r.chance(1, 3)) {
+        Stmt as = mk(Op::ASSERT);
+        as.c = cond();
+        as.c.e.terms.clear();
+        as.c.e.add_term(lhs, r.coin() ? 1 : -1);
+        as.id = (*assert_id)++;
+        b.stmts.push_back(as);
+      }
+      return;
+    }
+    if (k < 72) { // gep: same region (pointer arithmetic) or into another region (a field)
+      const RefInfo *dst = r.chance(2, 3) ? ref_in(p.home, p.name) : &any_ref();
+      if (!dst)
+        dst = &p;
+      if (regions[dst->home].ty != regions[p.home].ty && r.coin())
+        return;
+      s = mk(Op::GEP_REF);
+      s.v = {dst->name, regions[dst->home].name, p.name, regions[p.home].name};
+      static const long offs[] = {0, 4, 4, 8, 12, -4};
+      if (r.chance(1, 6) && !ints_rd.empty())
+        s.e = {LinExp::var(ird())};
+      else
+        s.e = {LinExp(mpz_class(offs[r.below(6)]))};
+      b.stmts.push_back(s);
+      return;
+    }
+    if (k < 80) { // select_ref, possibly with null
+      if (bools_rd.empty())
+        return;
+      const RefInfo *a1 = ref_in(p.home), *a2 = ref_in(p.home);
+      if (!a1 || !a2)
+        return;
+      s = mk(Op::SELECT_REF);
+      const std::string &rg = regions[p.home].name;
+      unsigned w = (unsigned)r.below(3);
+      s.v = {p.name, rg, bools_rd[r.below(bools_rd.size())], w == 1 ? "" : a1->name, rg,
+             w == 2 ? "" : a2->name, rg};
+      b.stmts.push_back(s);
+      return;
+    }
+    if (k < 88) {
+      b.stmts.push_back(mk_ref_cst(Op::ASSUME_REF));
+      return;
+    }
+    if (k < 92) {
+      Stmt as = mk_ref_cst(Op::ASSERT_REF);
+      as.id = (*assert_id)++;
+      b.stmts.push_back(as);
+      return;
+    }
+    if (k < 95) {
+      if (bools_wr.empty())
+        return;
+      b.stmts.push_back(mk_ref_cst(Op::BASSIGN_REFCST, bools_wr[r.below(bools_wr.size())]));
+      return;
+    }
+    if (k < 97) { // free
+      s = mk(Op::REMOVE_REF);
+      s.v = {regions[p.home].name, p.name};
+      b.stmts.push_back(s);
+      return;
+    }
+    { // region copy between regions of the same type
+      std::vector<int> c2;
+      for (size_t i = 0; i < regions.size(); i++)
+        if ((int)i != p.home && regions[i].ty == regions[p.home].ty)
+          c2.push_back((int)i);
+      if (c2.empty())
+        return;
+      s = mk(Op::RGN_COPY);
+      if (r.coin())
+        s.v = {regions[p.home].name, regions[c2[r.below(c2.size())]].name};
+      else
+        s.v = {regions[c2[r.below(c2.size())]].name, regions[p.home].name};
+      b.stmts.push_back(s);
+    }
+  }
+  void add_region_prologue() {
+    std::vector<Stmt> pro;
+    for (auto &g : regions) {
+      Stmt s = mk(Op::RGN_INIT);
+      s.v = {g.name};
+      pro.push_back(s);
+    }
+    // most references start allocated and initialised (the others start null)
+    for (auto &p : refs) {
+      if (r.chance(1, 5))
+        continue;
+      pro.push_back(mk_make_ref(p));
+      Stmt st;
+      if (r.chance(4, 5) && mk_store(p, st)) {
+        // a store of a reference needs its operand defined: only after it
+        if (regions[p.home].ty != Ty::RGN_REF)
+          pro.push_back(st);
+        else
+          pro.push_back(st);
+      }
+    }
+    f.blocks[0].stmts.insert(f.blocks[0].stmts.begin(), pro.begin(), pro.end());
+  }
+
   void fill_block(Block &b, int nst) {
     for (int i = 0; i < nst; i++) {
       Stmt s;
+      if (c.profile == GenConfig::REGION && r.chance(1, 2)) {
+        gen_region_stmts(b);
+        continue;
+      }
       if (c.profile == GenConfig::ARRAY && r.chance(2, 5)) {
         gen_array_stmts(b);
         continue;
@@ -999,6 +1274,8 @@ struct FGen {
         add_template_code();
     }
     place_asserts();
+    if (c.profile == GenConfig::REGION)
+      add_region_prologue();
     if (c.profile == GenConfig::ARRAY) {
       // every array starts initialised (reading a never-initialised array is outside the model)
       std::vector<Stmt> inits;
@@ -1027,6 +1304,8 @@ Program generate_program(Rng &r, const GenConfig &c) {
       g.f.name = ""; // crab treats an empty declaration as "no declaration"
     if (c.profile == GenConfig::ARRAY)
       g.declare_arrays();
+    if (c.profile == GenConfig::REGION)
+      g.declare_regions();
     g.generate_body();
     p.funcs.push_back(g.f);
     return p;
